@@ -1076,6 +1076,9 @@ impl ByteCompiler<'_> {
         if generator {
             if self.is_async() {
                 self.bytecode.emit_async_generator();
+                // NOTE: The first resumption of an async generator leaves both the resume kind and
+                //       the (unused) resume value on the stack.
+                self.bytecode.emit_pop();
             } else {
                 self.bytecode.emit_generator();
             }
